@@ -1,12 +1,219 @@
+import SelenModel.Model.Lp
 import Driver.Util
 /-
-(stub — to be filled in) ops with the prefix of this suite: model side.
+`lp.*` ops of the line protocol: model side (certificate checking).
+
+  lp.prob <first|next> nv=<n> nc=<m> c=<f,..> a=<row;row;..> b=<f,..> lo=<f,..> up=<f,..> ftol=<f> otol=<f>
+      -> validate=<ok|ErrName[:i]> std=<rows>x<cols> guard=<0|1> dual=<0|1>
+  lp.sol <cold|synth|warm-self|warm-prev> st=<status> obj=<f> x=<f,..> basis=<i,..>
+      -> reach=<0|1> <legal|illegal:why|n/a> xdev=<ok|bad|-> obj=<ok|bad|-> objcx=<ok|bad|->     (Ok statuses)
+      -> err                                                                                  (Err / panic)
+
+Every `<f>` is an IEEE-754 binary64 bit pattern in decimal.  The terminal state (x_B, y) is
+RECOMPUTED here from the returned basis by exact Gauss-Jordan elimination (untrusted), then judged
+by the verified checker `Selen.Lp.legalOptimal` with the configured tolerances.
 -/
 namespace Driver
+open Selen Selen.Lp
 
 structure LpSt where
-  dummy : Unit := ()
+  prob : Option Problem := none
+  ftol : Rat := 0
+  otol : Rat := 0
 
-def lpStep (st : LpSt) (_ws : List String) : LpSt × String := (st, "bad-op")
+/-! ### parsing -/
+
+def lpField (ws : List String) (key : String) : Option String :=
+  match ws.find? (fun w => w.startsWith (key ++ "=")) with
+  | some w => some ((w.drop (key.length + 1)).toString)
+  | none => none
+
+def lpSplit (s : String) (sep : String) : List String :=
+  if s.isEmpty then [] else s.splitOn sep
+
+def lpF64s (s : String) : Option (List F64) :=
+  (lpSplit s ",").mapM (fun t => t.toNat?.map f64OfBits)
+
+def lpNats (s : String) : Option (List Nat) :=
+  (lpSplit s ",").mapM (fun t => t.toNat?)
+
+/-- rows are terminated by `;` -/
+def lpRows (s : String) : Option (List (List F64)) :=
+  let parts := s.splitOn ";"
+  (parts.dropLast).mapM lpF64s
+
+def allFin (l : List F64) : Option Vec :=
+  l.mapM (fun v => match v with | .fin q => some q | _ => none)
+
+def upOf (l : List F64) : Option (List (Option Rat)) :=
+  l.mapM (fun v => match v with | .fin q => some (some q) | .pinf => some none | _ => none)
+
+def showValidate : Option ValidateErr → String
+  | none => "ok"
+  | some .objectiveDim => "ObjectiveDimensionMismatch"
+  | some .constraintCount => "ConstraintCountMismatch"
+  | some (.rowDim i) => s!"ConstraintRowDimensionMismatch:{i}"
+  | some .rhsDim => "RhsDimensionMismatch"
+  | some .lowerDim => "LowerBoundsDimensionMismatch"
+  | some .upperDim => "UpperBoundsDimensionMismatch"
+  | some (.bounds i) => s!"InvalidVariableBounds:{i}"
+  | some .objectiveNotFinite => "ObjectiveNotFinite"
+  | some .matrixNotFinite => "ConstraintMatrixNotFinite"
+  | some .rhsNotFinite => "RhsNotFinite"
+
+/-! ### exact linear algebra (untrusted: its results are re-checked by `legalOptimal`) -/
+
+/-- first row with a non-zero entry in column `k`, and the others (order kept) -/
+def splitPivot (k : Nat) : List Vec → Option (Vec × List Vec)
+  | [] => none
+  | r :: rs =>
+    if r.getD k 0 ≠ 0 then some (r, rs)
+    else match splitPivot k rs with
+      | some (p, rest) => some (p, r :: rest)
+      | none => none
+
+def rowSub (r : Vec) (f : Rat) (p : Vec) : Vec := List.zipWith (fun a b => a - f * b) r p
+
+/-- Gauss-Jordan on augmented rows; `done` holds the rows whose pivots are columns `0..k-1` -/
+def gaussJordan : Nat → Nat → List Vec → List Vec → Option (List Vec)
+  | 0, _, done, todo => if todo.isEmpty then some done else none
+  | fuel + 1, k, done, todo =>
+    match todo with
+    | [] => some done
+    | _ =>
+      match splitPivot k todo with
+      | none => none
+      | some (p, rest) =>
+        let pv := p.getD k 0
+        let pn := p.map (fun a => a / pv)
+        let red := fun (r : Vec) => rowSub r (r.getD k 0) pn
+        gaussJordan fuel (k + 1) (done.map red ++ [pn]) (rest.map red)
+
+/-- solve `M v = rhs` for a square `M`; `none` when singular -/
+def solveSquare (M : Mat) (rhs : Vec) : Option Vec :=
+  let m := M.length
+  let aug := List.zipWith (fun r b => r ++ [b]) M rhs
+  match gaussJordan (m + 1) 0 [] aug with
+  | some rows => some (rows.map (fun r => r.getD m 0))
+  | none => none
+
+def colOf (A : Mat) (j : Nat) : Vec := A.map (fun r => r.getD j 0)
+
+def transposeCols (cols : List Vec) (m : Nat) : Mat :=
+  (List.range m).map (fun i => cols.map (fun c => c.getD i 0))
+
+def setAt (v : Vec) (i : Nat) (x : Rat) : Vec := v.set i x
+
+def absR (q : Rat) : Rat := if q < 0 then -q else q
+
+/-! ### verdicts -/
+
+/-- legality verdict and the exact full solution `z` (when it could be computed) -/
+def judge (S : Std) (ftol otol : Rat) (basis : List Nat) : String × Option Vec :=
+  let m := S.a.length
+  let n := S.c.length
+  if !(basisOk m n basis) then ("illegal:shape", none)
+  else
+    let cols := basis.map (colOf S.a)
+    let B := transposeCols cols m
+    match solveSquare B S.b, solveSquare cols (basis.map (fun j => S.c.getD j 0)) with
+    | some xB, some y =>
+      let z := (List.zip basis xB).foldl (fun acc (p : Nat × Rat) => setAt acc p.1 p.2) (zeros n)
+      -- the verified checker is the arbiter; the rest only names the first failing condition
+      if legalOptimal S ftol otol basis z y then ("legal", some z)
+      else if xB.any (fun v => decide (v < -ftol)) then ("illegal:primal", some z)
+      else
+        let r := redCosts S y
+        let badDual := (List.range n).any (fun j => !(basis.contains j) && decide (otol < r.getD j 0))
+        if badDual then ("illegal:dual", some z) else ("illegal:checker", some z)
+    | _, _ => ("illegal:singular", none)
+
+def okBad (b : Bool) : String := if b then "ok" else "bad"
+
+def closeVec (tol : Rat) : List F64 → Vec → Bool
+  | .fin a :: as, e :: es => decide (absR (a - e) ≤ tol) && closeVec tol as es
+  | [], [] => true
+  | _, _ => false
+
+def sumAbs (v : Vec) : Rat := v.foldl (fun acc a => acc + absR a) 0
+
+def statusOfString : String → Option Status
+  | "Optimal" => some .optimal
+  | "Infeasible" => some .infeasible
+  | "Unbounded" => some .unbounded
+  | "IterationLimit" => some .iterationLimit
+  | "NumericalError" => some .numericalError
+  | _ => none
+
+def lpProb (st : LpSt) (ws : List String) : LpSt × String :=
+  let r : Option (LpSt × String) := do
+    let nv ← (← lpField ws "nv").toNat?
+    let nc ← (← lpField ws "nc").toNat?
+    let c ← lpF64s (← lpField ws "c")
+    let a ← lpRows (← lpField ws "a")
+    let b ← lpF64s (← lpField ws "b")
+    let lo ← lpF64s (← lpField ws "lo")
+    let up ← lpF64s (← lpField ws "up")
+    let ftol ← f64ToRat (← (← lpField ws "ftol").toNat?)
+    let otol ← f64ToRat (← (← lpField ws "otol").toNat?)
+    let v := validate { nVars := nv, nCons := nc, c := c, a := a, b := b, lo := lo, up := up }
+    let none' : LpSt × String := ({ prob := none, ftol := ftol, otol := otol }, s!"validate={showValidate v} std=- guard=- dual=-")
+    match v with
+    | some _ => pure none'
+    | none =>
+      match allFin c, a.mapM allFin, allFin b, allFin lo, upOf up with
+      | some c, some a, some b, some lo, some up =>
+        let P : Problem := { c := c, a := a, b := b, lo := lo, up := up }
+        let S := toStd P
+        pure ({ prob := some P, ftol := ftol, otol := otol },
+          s!"validate=ok std={S.a.length}x{S.c.length} guard={showBool (noPhaseOne ftol P)} dual={showBool (dualFormGuard P)}")
+      | _, _, _, _, _ => pure none'
+  match r with
+  | some x => x
+  | none => (st, "bad-op")
+
+def lpSol (st : LpSt) (path : String) (ws : List String) : LpSt × String :=
+  let r : Option String := do
+    let stS ← lpField ws "st"
+    match statusOfString stS with
+    | none => pure "err"
+    | some status =>
+      let reach := showBool status.reachable
+      if status ≠ .optimal then pure s!"reach={reach} n/a"
+      else if st.prob.isNone then pure s!"reach={reach} unmodelled"
+      else
+        let P ← st.prob
+        let obj := f64OfBits (← (← lpField ws "obj").toNat?)
+        let x ← lpF64s (← lpField ws "x")
+        let basis ← lpNats (← lpField ws "basis")
+        let cold := path == "cold" || path == "synth"
+        let S := if cold then toStd P else toDualStd P
+        let (verdict, z?) := judge S st.ftol st.otol basis
+        let objtol := st.ftol * (1 + sumAbs P.c)
+        let objcx :=
+          match obj, allFin x with
+          | .fin o, some xs => if xs.length = P.c.length then okBad (decide (absR (o - dot P.c xs) ≤ objtol)) else "bad"
+          | _, _ => "bad"
+        match z? with
+        | none => pure s!"reach={reach} {verdict} xdev=- obj=- objcx={objcx}"
+        | some z =>
+          let xe := if cold then backX P z else z.take P.c.length
+          let oe := if cold then backObj P z else dot S.c z
+          let xdev := okBad (closeVec st.ftol x xe)
+          let objv := match obj with
+            | .fin o => okBad (decide (absR (o - oe) ≤ objtol))
+            | _ => "bad"
+          pure s!"reach={reach} {verdict} xdev={xdev} obj={objv} objcx={objcx}"
+  match r with
+  | some s => (st, s)
+  | none => (st, "bad-op")
+
+def lpStep (st : LpSt) (ws : List String) : LpSt × String :=
+  match ws with
+  | "lp.prob" :: _ :: rest => lpProb st rest
+  | "lp.sol" :: path :: rest =>
+    if path == "cold" || path == "synth" || path == "warm-self" || path == "warm-prev" then lpSol st path rest
+    else (st, "bad-op")
+  | _ => (st, "bad-op")
 
 end Driver
